@@ -1223,6 +1223,8 @@ impl Case for LifeCase {
                 self.fail("C12", "C12/ring-drop-cq-overflow", format!("op{i} ({kind}) state never reclaimed: {} completions were left on the overflow list when the ring was dropped", self.lost_at_drop));
             } else {
                 self.fail("C06", &format!("C06/state-leaked/{kind}"), format!("state of op{i} was never freed although its future and the ring were dropped"));
+                // the same leak is an allocation left behind after teardown (C12)
+                self.fail("C12", &format!("C12/state-left-behind/{kind}"), format!("state of op{i} was never freed although its future, the ring and every handle were dropped"));
             }
         }
         // C06: the resources of an operation whose state was reclaimed were dropped
@@ -1239,6 +1241,7 @@ impl Case for LifeCase {
         }
         for (i, kind, n) in res_leaks {
             self.fail("C06", &format!("C06/resources-leaked/{kind}"), format!("the state of op{i} was reclaimed but {n} of the memory blocks it shared with the kernel (buffers, paths, …) were never freed"));
+            self.fail("C12", &format!("C12/resources-left-behind/{kind}"), format!("after teardown {n} of the memory blocks op{i} shared with the kernel were never freed"));
         }
         drop(self.pool.take());
         if let Some(other) = self.other.take() {
